@@ -10,6 +10,9 @@
      c_reparse   parser.ParseString on that text (None: the parser rejected it)
      c_sem_orig  the semantic checker and ResolveSymbols accepted the original program
      c_sem_dump  ... accepted the program re-read from the dumped texts
+     c_reread    the file as the RECURSIVE parser returns it when the whole dumped tree is re-read
+                 (include statements linked to the parsed includes), before the semantic pass;
+                 None when not observed
 
    [mismatches] returns (case index, code).
    Correspondence (model and implementation disagree):
@@ -17,6 +20,9 @@
         (white space, comments and the optional list separators are not compared)
      5  the observed re-parsed AST differs from [dump_view] (up to recorded comments)
      6  the parser model Idl/Parse.v and the real parser disagree on the observed text
+    30  the file of the re-read tree differs from [relink a (dump_view a)], the file of
+        [dumped_program] (Idl/DumpResolveFacts.v) that C17_dump_passes_semantic and
+        C17_program_roundtrip speak about (up to recorded comments)
      8  [fmt_ok] fails on an observed double text (the hypothesis of the theorems about
         strconv.FormatFloat does not hold for what the implementation printed)
    Property oracle on the observed behaviour:
@@ -35,7 +41,7 @@
     24  fields, arguments, throws, functions or enum values differ in number or name *)
 From Coq Require Import List Bool NArith ZArith.
 From Coq.Strings Require Import Byte.
-From Verif Require Import Base.Bytes Idl.Ast Idl.Lex Idl.Parse Idl.Dump.
+From Verif Require Import Base.Bytes Idl.Ast Idl.Lex Idl.Parse Idl.Dump Idl.DumpResolveFacts.
 Import ListNotations.
 
 Record case := mkcase {
@@ -44,7 +50,8 @@ Record case := mkcase {
   c_text : option bytes;
   c_reparse : option file;
   c_sem_orig : bool;
-  c_sem_dump : bool }.
+  c_sem_dump : bool;
+  c_reread : option file }.
 
 Definition fmt_of (tbl : list (N * bytes)) (d : N) : bytes :=
   match find (fun p => N.eqb (fst p) d) tbl with Some p => snd p | None => [] end.
@@ -236,7 +243,12 @@ Definition check (c : case) : list N :=
       | Some b => dedup (diff_file (c17_norm a) (c17_norm b))
       end ++
       (if c_sem_orig c && negb (c_sem_dump c) then [7%N] else []) in
-    corr_fmt ++ corr_text ++ corr_parse ++ corr_view ++ oracle
+    let corr_reread :=
+      match c_reread c with
+      | Some q => if file_eqb_nc (relink a (dump_view fmt a)) q then [] else [30%N]
+      | None => []
+      end in
+    corr_fmt ++ corr_text ++ corr_parse ++ corr_view ++ corr_reread ++ oracle
   end.
 
 Fixpoint mismatches_from (i : N) (cs : list case) : list (N * N) :=
